@@ -89,11 +89,44 @@ theorem find_of_get (st : St) (hnd : (st.map (·.key)).Nodup) : ∀ (i : Nat) (c
 
 /-! ### the invariant of the class table -/
 
+/-- keys that can occur in a table: the anonymous intermediate class exists only for Unsigned / Signed -/
+def goodKey : Key → Bool
+  | .anon _ _ k _ _ => k != .bv
+  | _ => true
+
+theorem baseKeys_good (k b : Key) (hb : b ∈ baseKeys k) : goodKey b = true := by
+  cases k with
+  | root r => cases r <;> simp [baseKeys, rootBases] at hb <;> subst hb <;> rfl
+  | vec k o w => cases k <;> simp [baseKeys] at hb <;> rcases hb with rfl | rfl <;> rfl
+  | arr e n => simp [baseKeys] at hb; subst hb; rfl
+  | anon qk d k o w => simp [baseKeys] at hb; rcases hb with rfl | rfl <;> rfl
+  | q qk d t =>
+    cases qk <;> simp [baseKeys] at hb
+    all_goals
+      first
+        | (rcases hb with rfl | rfl <;>
+            (cases t with
+              | root r => cases r <;> simp [goodKey, qParent]
+              | vec k o w => cases k <;> simp [goodKey, qParent]
+              | arr e n => simp [goodKey, qParent]
+              | q a b c => simp [goodKey, qParent]
+              | anon a b c d e => simp [goodKey, qParent]))
+        | (subst hb
+           cases t with
+              | root r => cases r <;> simp [goodKey, qParent]
+              | vec k o w => cases k <;> simp [goodKey, qParent]
+              | arr e n => simp [goodKey, qParent]
+              | q a b c => simp [goodKey, qParent]
+              | anon a b c d e => simp [goodKey, qParent])
+
 /-- parameter tuples are unique (one class per tuple) and every class has exactly the bases its tuple
     prescribes, all of them present in the table -/
 structure Inv (st : St) : Prop where
   nodup : (st.map (·.key)).Nodup
   bases : ∀ c ∈ st, (baseKeys c.key).map (find st) = c.bases.map some
+  /-- the bases of a class were created before it -/
+  ordered : ∀ (i : Nat) (c : Cls), st[i]? = some c → ∀ j ∈ c.bases, j < i
+  good : ∀ c ∈ st, goodKey c.key = true
 
 theorem map_find_append (st e : St) (bs : List Key) (ids : List Nat)
     (h : bs.map (find st) = ids.map some) : bs.map (find (st ++ e)) = ids.map some := by
@@ -149,21 +182,21 @@ theorem rank_lt_fuel (k : Key) : rank k < fuel := by
 /-! ### `ensure` -/
 
 def EnsSpec (ens : St → Key → Option (St × Nat)) (bound : Nat) : Prop :=
-  ∀ st k, Inv st → rank k < bound →
+  ∀ st k, Inv st → rank k < bound → goodKey k = true →
     ∃ ext i, ens st k = some (st ++ ext, i) ∧ Inv (st ++ ext) ∧ find (st ++ ext) k = some i ∧
       ∀ c ∈ ext, rank c.key ≤ rank k
 
 theorem ensureAll_spec (ens : St → Key → Option (St × Nat)) (bound : Nat) (he : EnsSpec ens bound) :
-    ∀ (bs : List Key) (st : St), Inv st → (∀ b ∈ bs, rank b < bound) →
+    ∀ (bs : List Key) (st : St), Inv st → (∀ b ∈ bs, rank b < bound) → (∀ b ∈ bs, goodKey b = true) →
       ∃ ext ids, ensureAll ens st bs = some (st ++ ext, ids) ∧ Inv (st ++ ext) ∧
         bs.map (find (st ++ ext)) = ids.map some ∧ ∀ c ∈ ext, ∃ b ∈ bs, rank c.key ≤ rank b := by
   intro bs
   induction bs with
-  | nil => intro st hI _; exact ⟨[], [], by simp [ensureAll], by simpa using hI, by simp, by simp⟩
+  | nil => intro st hI _ _; exact ⟨[], [], by simp [ensureAll], by simpa using hI, by simp, by simp⟩
   | cons b bs ih =>
-    intro st hI hr
-    obtain ⟨e1, i, h1, hI1, hf1, hr1⟩ := he st b hI (hr b (by simp))
-    obtain ⟨e2, ids, h2, hI2, hf2, hr2⟩ := ih (st ++ e1) hI1 (fun b' hb' => hr b' (by simp [hb']))
+    intro st hI hr hg
+    obtain ⟨e1, i, h1, hI1, hf1, hr1⟩ := he st b hI (hr b (by simp)) (hg b (by simp))
+    obtain ⟨e2, ids, h2, hI2, hf2, hr2⟩ := ih (st ++ e1) hI1 (fun b' hb' => hr b' (by simp [hb'])) (fun b' hb' => hg b' (by simp [hb']))
     refine ⟨e1 ++ e2, i :: ids, ?_, ?_, ?_, ?_⟩
     · simp [ensureAll, h1, h2, List.append_assoc]
     · simpa [List.append_assoc] using hI2
@@ -179,13 +212,13 @@ theorem ensure_spec : ∀ f, EnsSpec (ensure f) f := by
   induction f with
   | zero => intro st k _ h; omega
   | succ f ih =>
-    intro st k hI hr
+    intro st k hI hr hgk
     simp only [ensure]
     cases hfind : find st k with
     | some i => exact ⟨[], i, by simp, by simpa using hI, by simpa using hfind, by simp⟩
     | none =>
       have hb : ∀ b ∈ baseKeys k, rank b < f := fun b hb => by have := rank_base_lt k b hb; omega
-      obtain ⟨ext, ids, h1, hI1, hf1, hr1⟩ := ensureAll_spec (ensure f) f ih (baseKeys k) st hI hb
+      obtain ⟨ext, ids, h1, hI1, hf1, hr1⟩ := ensureAll_spec (ensure f) f ih (baseKeys k) st hI hb (fun b hb' => baseKeys_good k b hb')
       simp only [h1]
       have hnotin : k ∉ (st ++ ext).map (·.key) := by
         simp only [List.map_append, List.mem_append, not_or]
@@ -211,6 +244,22 @@ theorem ensure_spec : ∀ f, EnsSpec (ensure f) f := by
           · exact map_find_append _ _ _ _ (hI1.bases c hc)
           · simp at hc; subst hc
             exact map_find_append _ _ _ _ hf1
+        · intro i c hc j hj
+          by_cases hi : i < (st ++ ext).length
+          · rw [List.getElem?_append_left hi] at hc
+            exact hI1.ordered i c hc j hj
+          · have hlen : i = (st ++ ext).length := by
+              have := (List.getElem?_eq_some_iff.mp hc).1
+              simp at this hi ⊢; omega
+            subst hlen
+            simp at hc; subst hc
+            have : some j ∈ (baseKeys k).map (find (st ++ ext)) := hf1 ▸ List.mem_map.mpr ⟨j, hj, rfl⟩
+            obtain ⟨b, _, hfb⟩ := List.mem_map.mp this
+            exact find_lt _ b j hfb
+        · intro c hc
+          rcases List.mem_append.mp hc with hc | hc
+          · exact hI1.good c hc
+          · simp at hc; subst hc; exact hgk
       · rw [← List.append_assoc, find_append_none _ _ _ hfn]; simp
       · intro c hc
         rcases List.mem_append.mp hc with hc | hc
@@ -221,11 +270,11 @@ theorem ensure_spec : ∀ f, EnsSpec (ensure f) f := by
 
 /-! ### requests and histories -/
 
-theorem inv_nil : Inv [] := ⟨by simp, by simp⟩
+theorem inv_nil : Inv [] := ⟨by simp, by simp, by simp, by simp⟩
 
-theorem ens_spec (st : St) (k : Key) (hI : Inv st) :
+theorem ens_spec (st : St) (k : Key) (hI : Inv st) (hg : goodKey k = true) :
     ∃ ext i, ens st k = (st ++ ext, some i) ∧ Inv (st ++ ext) ∧ find (st ++ ext) k = some i := by
-  obtain ⟨ext, i, h, hI', hf, _⟩ := ensure_spec fuel st k hI (rank_lt_fuel k)
+  obtain ⟨ext, i, h, hI', hf, _⟩ := ensure_spec fuel st k hI (rank_lt_fuel k) hg
   exact ⟨ext, i, by simp [ens, h], hI', hf⟩
 
 theorem evalReq_spec : ∀ (k : Key) (st : St), Inv st →
@@ -239,7 +288,7 @@ theorem evalReq_spec : ∀ (k : Key) (st : St), Inv st →
     simp only [evalReq]
     split
     · exact ⟨[], by simp, by simpa using hI, by simp⟩
-    · obtain ⟨ext, i, h, hI', hf⟩ := ens_spec st (.vec k o w) hI
+    · obtain ⟨ext, i, h, hI', hf⟩ := ens_spec st (.vec k o w) hI rfl
       exact ⟨ext, by simp [h], hI', by simp [h, hf]⟩
   | anon a b c d e => intro st hI; exact ⟨[], by simp [evalReq], by simpa using hI, by simp [evalReq]⟩
   | arr e n ih =>
@@ -254,7 +303,7 @@ theorem evalReq_spec : ∀ (k : Key) (st : St), Inv st →
       | some j =>
         simp only
         split
-        · obtain ⟨e2, i, h, hI', hf⟩ := ens_spec (st ++ e1) (.arr e n) hI1
+        · obtain ⟨e2, i, h, hI', hf⟩ := ens_spec (st ++ e1) (.arr e n) hI1 rfl
           exact ⟨e1 ++ e2, by simp [h, List.append_assoc], by simpa [List.append_assoc] using hI', by
             intro i' hi'; simp [h] at hi'; subst hi'; simpa [List.append_assoc] using hf⟩
         · exact ⟨e1, by simp, hI1, by simp⟩
@@ -270,7 +319,7 @@ theorem evalReq_spec : ∀ (k : Key) (st : St), Inv st →
       | some j =>
         simp only
         split
-        · obtain ⟨e2, i, h, hI', hf⟩ := ens_spec (st ++ e1) (.q qk d t) hI1
+        · obtain ⟨e2, i, h, hI', hf⟩ := ens_spec (st ++ e1) (.q qk d t) hI1 rfl
           exact ⟨e1 ++ e2, by simp [h, List.append_assoc], by simpa [List.append_assoc] using hI', by
             intro i' hi'; simp [h] at hi'; subst hi'; simpa [List.append_assoc] using hf⟩
         · exact ⟨e1, by simp, hI1, by simp⟩
